@@ -645,16 +645,24 @@ func lockRMW(c *Ctx, fn *ssa.Function, rowOf map[string]GuardRow, req map[string
 		row := rowOf[a.Type+"."+a.Field]
 		// origins of the stored value that are reads of the same field
 		var origins []ssa.Instruction
-		DerivesFrom(st.Val, func(v ssa.Value) bool {
-			u, ok := v.(*ssa.UnOp)
-			if !ok || u.Op != token.MUL {
+		var collect func(v ssa.Value, d int)
+		collect = func(v ssa.Value, d int) {
+			DerivesFrom(v, func(x ssa.Value) bool {
+				if u, ok := x.(*ssa.UnOp); ok && u.Op == token.MUL && IsFieldAddr(u.X, a.Type, a.Field) {
+					origins = append(origins, u)
+				}
+				// the bounds of a re-slice are part of the new value: a length taken from a stale snapshot truncates the live list
+				if sl, ok := x.(*ssa.Slice); ok && d < 3 {
+					for _, bnd := range []ssa.Value{sl.Low, sl.High, sl.Max} {
+						if bnd != nil {
+							collect(bnd, d+1)
+						}
+					}
+				}
 				return false
-			}
-			if IsFieldAddr(u.X, a.Type, a.Field) {
-				origins = append(origins, u)
-			}
-			return false
-		})
+			})
+		}
+		collect(st.Val, 0)
 		if len(origins) == 0 {
 			continue
 		}
